@@ -70,25 +70,24 @@ func Ask(ctx context.Context, to *PID, message any, timeout time.Duration) (resp
 
 	// await patiently to receive the response from the actor
 	// or wait for the context to be done
+	// receiveContext belongs to the target's mailbox from here on (it is recycled
+	// one dequeue after it was handed out): it must not be touched any more.
 	select {
 	case response = <-responseCh:
 		timers.Put(timer)
-		receiveContext.responseClosed.Store(true)
+		// the one reply has arrived, nobody will send on the channel again
 		putResponseChannel(responseCh)
 		return
 	case <-ctx.Done():
 		err = errors.Join(ctx.Err(), gerrors.ErrRequestTimeout)
 		to.handleReceivedErrorWithMessage(noSender, message, err)
 		timers.Put(timer)
-		receiveContext.responseClosed.Store(true)
-		putResponseChannel(responseCh)
+		// the target may still reply: the channel is left to the GC, not pooled
 		return nil, err
 	case <-timer.C:
 		err = gerrors.ErrRequestTimeout
 		to.handleReceivedErrorWithMessage(noSender, message, err)
 		timers.Put(timer)
-		receiveContext.responseClosed.Store(true)
-		putResponseChannel(responseCh)
 		return
 	}
 }
